@@ -122,4 +122,105 @@ theorem prefix_head_digit (vs : List Value) (p : Bytes) (hp : p <+: encList vs) 
       simp only [encList, hc, List.cons_append, List.cons.injEq] at hw
       exact ⟨c', cs', rfl, by rw [hw.1]; exact hdig⟩
 
+-- ------------------------------------------------------------------------------------------------
+-- buffered files
+-- ------------------------------------------------------------------------------------------------
+theorem runOps_inv : ∀ (ops : List FOp) (f : BFile),
+    (f.runOps ops).disk ++ (f.runOps ops).buf = f.disk ++ f.buf ++ opsLog ops := by
+  intro ops
+  induction ops with
+  | nil => intro f; simp [BFile.runOps, opsLog]
+  | cons op t ih =>
+    intro f
+    have hstep : f.runOps (op :: t) = (f.apply op).runOps t := by simp [BFile.runOps]
+    rw [hstep, ih]
+    cases op with
+    | write b k =>
+      simp only [BFile.apply, opsLog, List.append_assoc]
+      rw [← List.append_assoc ((f.buf ++ b).take k), List.take_append_drop]
+      simp
+    | flush => simp [BFile.apply, opsLog]
+
+theorem opsLog_append (a b : List FOp) : opsLog (a ++ b) = opsLog a ++ opsLog b := by
+  induction a with
+  | nil => simp [opsLog]
+  | cons op t ih => cases op <;> simp [opsLog, ih]
+
+theorem dumps_enc (v : Value) : dumps v = enc v := by simp [dumps, rdumpq_eq v [] 0]
+
+theorem opsLog_streamOps : ∀ (vs : List Value) (ks : List Nat), opsLog (streamOps vs ks) = encList vs := by
+  intro vs
+  induction vs with
+  | nil => intro ks; simp [streamOps, opsLog, encList]
+  | cons v t ih => intro ks; simp [streamOps, opsLog, encList, ih, dumps_enc]
+
+theorem opsLog_explicitOps : ∀ (vs : List Value) (ks : List Nat), opsLog (explicitOps vs ks) = encList vs := by
+  intro vs
+  induction vs with
+  | nil => intro ks; simp [explicitOps, opsLog, encList]
+  | cons v t ih => intro ks; simp [explicitOps, opsLog, encList, ih, dumps_enc]
+
+/-- at any point of any operation list, what the OS has is a prefix of everything the program will have written -/
+theorem disk_prefix (ops : List FOp) (i : Nat) : (BFile.empty.runOps (ops.take i)).disk <+: opsLog ops := by
+  have h := runOps_inv (ops.take i) BFile.empty
+  have hsplit : opsLog ops = opsLog (ops.take i) ++ opsLog (ops.drop i) := by
+    rw [← opsLog_append, List.take_append_drop]
+  simp only [BFile.empty, List.nil_append] at h
+  refine ⟨(BFile.empty.runOps (ops.take i)).buf ++ opsLog (ops.drop i), ?_⟩
+  rw [hsplit, ← h, List.append_assoc]
+  rfl
+
+theorem streamOps_flushed : ∀ (vs : List Value) (ks : List Nat) (f : BFile), f.buf = [] →
+    f.runOps (streamOps vs ks) = ⟨f.disk ++ encList vs, []⟩ := by
+  intro vs
+  induction vs with
+  | nil => intro ks f hf; cases f; simp_all [streamOps, BFile.runOps, encList]
+  | cons v t ih =>
+    intro ks f hf
+    have hstep : f.runOps (streamOps (v :: t) ks)
+        = ((f.apply (.write (dumps v) (ks.headD 0))).apply .flush).runOps (streamOps t ks.tail) := by
+      simp [streamOps, BFile.runOps]
+    rw [hstep, ih ks.tail _ (by simp [BFile.apply])]
+    simp [BFile.apply, hf, encList, dumps_enc, List.take_append_drop]
+
+theorem explicitOps_closed : ∀ (vs : List Value) (ks : List Nat) (f : BFile),
+    f.runOps (explicitOps vs ks) = ⟨f.disk ++ f.buf ++ encList vs, []⟩ := by
+  intro vs ks f
+  have hb : (f.runOps (explicitOps vs ks)).buf = [] := by
+    induction vs generalizing ks f with
+    | nil => simp [explicitOps, BFile.runOps, BFile.apply]
+    | cons v t ih =>
+      have : f.runOps (explicitOps (v :: t) ks) = (f.apply (.write (dumps v) (ks.headD 0))).runOps (explicitOps t ks.tail) := by
+        simp [explicitOps, BFile.runOps]
+      rw [this]; exact ih _ _
+  have h := runOps_inv (explicitOps vs ks) f
+  rw [hb, opsLog_explicitOps] at h
+  simp only [List.append_nil] at h
+  cases hf : f.runOps (explicitOps vs ks) with
+  | mk d b =>
+    rw [hf] at h hb
+    simp only at h hb
+    rw [h, hb]
+
+theorem pyWrite_inv (B : Nat) (f : BFile) (b : Bytes) :
+    (pyWrite B f b).disk ++ (pyWrite B f b).buf = f.disk ++ f.buf ++ b := by
+  unfold pyWrite
+  split
+  · simp
+  · split <;> simp
+
+theorem pyExplicit_inv (B : Nat) : ∀ (bs : List Bytes) (f st : BFile), st ∈ pyExplicit B f bs →
+    ∃ j, st.disk ++ st.buf = f.disk ++ f.buf ++ (bs.take j).flatten := by
+  intro bs
+  induction bs with
+  | nil => intro f st h; simp [pyExplicit] at h
+  | cons b t ih =>
+    intro f st h
+    simp only [pyExplicit, List.mem_cons] at h
+    rcases h with h | h
+    · exact ⟨1, by rw [h, pyWrite_inv]; simp⟩
+    · obtain ⟨j, hj⟩ := ih (pyWrite B f b) st h
+      refine ⟨j + 1, ?_⟩
+      rw [hj, pyWrite_inv]; simp
+
 end MitmVerif.C37
